@@ -316,6 +316,11 @@ static void both_modes(call_t * c) {
 
 static void over_lens(call_t * c, size_t L) {
     size_t l;
+    static unsigned long nover;
+    if (nover++ % 16 == 0) {          /* buffers of more than 255 bytes (a length kept in one byte would wrap) */
+        static const size_t bigl[] = {255, 256, 257, 300, 512};
+        for (l = 0; l < 5; l++) { c->len = bigl[l]; both_modes(c); }
+    }
     if (lens_all) {
         for (l = 0; l <= maxlen; l++) { c->len = l; both_modes(c); }
     } else {
